@@ -327,6 +327,7 @@ impl Property for C10 {
             sink: sink.clone(),
             fail_read_at: None,
             fail_read_sticky: false,
+            ..Default::default()
         };
         st.eval();
         let mut opts = Opts::with(USize::ReadFromHeader);
